@@ -5,7 +5,7 @@ import Blue.Proofs.Damage
 /-! **C09** the MANIFEST under damage, read by the faithful model of `ManifestIterator`
     (`Blue.Damage.iterate`: `BufRead::lines` strips a carriage return only together with a newline
     and fails on a line that is not UTF-8; every error poisons the iterator — the non-ASCII check
-    too, as repaired by fixes/mani-nonascii-poisons.diff; `Edit::add/rm/info` refuse a payload that ends in a carriage return; strings go into sorted sets).
+    too, as repaired by /repo commit ef4f524; `Edit::add/rm/info` refuse a payload that ends in a carriage return; strings go into sorted sets).
 
     * **A** `iterate_lines`, `items_roundtrip`: what the writer wrote is read back, edit for edit.
     * **B** `manifest_damage_detected_or_prefix` (+ `manifest_damage_detected_last_line`): one line
@@ -1148,7 +1148,7 @@ theorem non_ascii_line_not_poisoned :
     itemsAsFound crc0 nonAsciiManifest = [.notAscii, .edit ⟨[], [[98]], []⟩] := by
   decide
 
-/-- **F**, repaired (fixes/mani-nonascii-poisons.diff): the non-ASCII error is the last item -/
+/-- **F**, repaired (/repo commit ef4f524): the non-ASCII error is the last item -/
 theorem non_ascii_line_poisons :
     items crc0 nonAsciiManifest = [.notAscii] ∧ openState crc0 nonAsciiManifest = .error .notAscii := by
   constructor
